@@ -70,7 +70,7 @@ def histories(rng, tier):
     hs.append((1, [("new", 2), ("apply", ("h", 3)), ("measure", 1), ("dump",), ("probs",)]))
     hs.append((2, [("new", 3), ("apply", ("h", 7)), ("setnum", 1), ("dump",), ("probs",)]))
     hs.append((3, [("new", 3), ("apply", ("x", 4)), ("setnum", 2), ("dump",), ("probs",)]))
-    for i in range(40 if tier == "quick" else 200):
+    for i in range(40 if tier == "quick" else 600):
         hs.append((rng.randrange(1 << 30), history(rng, rng.choice([5, 20, 60]) if tier == "quick" else rng.choice([20, 100, 400]))))
     hs.append((rng.randrange(1 << 30), loop_history(rng, 200 if tier == "quick" else 2000)))
     return hs
